@@ -46,7 +46,7 @@ inline std::array<double, 3> dubins_ccc(const smooth::SE2d & target, double R, D
     return {dubins_angle(smooth::SO2d::Identity(), target.so2(), c13), 0, 0};
   }
 
-  if (4 * R <= d13) {
+  if (4 * R < d13) {
     // infeasible case
     return {inf, inf, inf};
   }
@@ -104,7 +104,7 @@ inline std::array<double, 3> dubins_csc(const smooth::SE2d & target, double R, D
   smooth::SO2d theta(C1_C3.y(), C1_C3.x());
 
   if (c1 != c3) {
-    if (d13 <= 2 * R) { return {inf, inf, inf}; }
+    if (d13 < 2 * R) { return {inf, inf, inf}; }
 
     // positive angle between C1 -> C3 and line between tangent points
     smooth::SO2d diff(2 * R / d13, std::sqrt(1. - 4 * R * R / (d13 * d13)));
